@@ -418,6 +418,8 @@ class FitEngine(Engine):
         calls_by_peak = {i: [c for c in log if keymap and keymap.get(c["key"]) == i] for i in range(n_est)}
         for i, r in enumerate(R):
             self._judge_result(scn, ctx, da, x, y, var, r, calls_by_peak.get(i) or [], f"twin peak {i}")
+            if keymap:
+                self._judge_attempt_order(scn, ctx, calls_by_peak.get(i) or [], keys[i][0], f"twin peak {i}")
         # ---- isolation, fault-free: every peak alone -------------------------------
         singles = {}
         if n_est > 1 or True:
@@ -625,6 +627,28 @@ class FitEngine(Engine):
                             f"AIC(bkg+peak)={aic}", kind="success:aic")
             ctx.count("background_aic_compared")
 
+    def _judge_attempt_order(self, scn, ctx, calls, npts, where, hint=None):
+        """Model combinations are tried in the documented order: peak-major, background-minor
+        ('the background is varied first'), until the first success.  Read off the proxy log."""
+        pn = {"gaussian": ["amplitude", "loc", "scale"], "lorentzian": ["amplitude", "loc", "scale"],
+              "pseudo_voigt": ["amplitude", "loc", "scale", "fraction"]}
+        bn = {"linear": ["a0", "a1"], "quadratic": ["a0", "a1", "a2"]}
+        pairs = [(p, b) for p in scn["peak"]["models"] for b in scn["background"]["models"]]
+        if len(pairs) < 2 or npts < 7:
+            return
+        want = [sorted(["peak_" + n for n in pn[p]] + ["bkg_" + n for n in bn[b]]) for p, b in pairs]
+        seen = [c["names"] for c in calls if c["full"]]
+        for j, names in enumerate(seen):
+            if j >= len(want) or names != want[j]:
+                ctx.violate(
+                    "model_selection",
+                    f"[{where}] attempt {j} fitted parameters {names}, but the documented order "
+                    f"(peak-major, background varied first) has {pairs[j] if j < len(pairs) else 'no more combinations'} "
+                    f"= {want[j] if j < len(want) else None} here", kind="model_selection:attempt_order",
+                    **({"_hint": hint} if hint else {}))
+                return
+        ctx.count("attempt_orders_checked")
+
     def _run_plan(self, scn, ctx, da, x, y, var, R, windows, keymap, plan, singles):
         n_est = len(R)
         RF, exc, log = self._fit(scn, ctx, da, scn["estimates"], scn["windows"], plan, keymap, "faulted")
@@ -683,6 +707,8 @@ class FitEngine(Engine):
                     ctx.violate("control_flow", f"peak {i}: every full fit failed but the result is success",
                                 kind="control_flow:success_after_failure", _hint={"plan": plan})
             self._judge_result(scn, ctx, da, x, y, var, RF[i], calls_by_peak[i], f"plan {desc} peak {i}")
+            npts = next((k[0] for k, v in keymap.items() if v == i), 0)
+            self._judge_attempt_order(scn, ctx, calls_by_peak[i], npts, f"plan {desc} peak {i}", {"plan": plan})
         if scn.get("remove"):
             self._judge_remove(scn, ctx, da, x, y, RF, "faulted")
 
